@@ -210,6 +210,8 @@ func main() {
 				return
 			}
 			syscall.SetsockoptTimeval(fd, syscall.SOL_SOCKET, syscall.SO_RCVTIMEO, &syscall.Timeval{Usec: 20000})
+			// sx sends at full speed: a default-sized receive buffer drops frames of larger scans
+			syscall.SetsockoptInt(fd, syscall.SOL_SOCKET, 33 /* SO_RCVBUFFORCE */, 16<<20)
 			name := ifc.Name
 			idleCtr := new(int64)
 			idle[name] = idleCtr
